@@ -156,7 +156,15 @@ def flatten(m) -> list[int]:
 NAMES = ["Living", "Bed 1", "Küche", "子供部屋", "Ünïté", "A", "", "Rumpus12", "🏠x"]
 
 
-def rand_name(rng, maxbytes):
+LONG_NAMES = ["Küche EG", "子供部屋のへや", "Ünïté häuslé", "🏠🏠🏠", "Wohnzimmer Süd-West", "ÄÖÜäöüß", "Bed 1 €€"]
+
+
+def rand_name(rng, maxbytes, over=False):
+    """over=True: also names that do not fit the field - in bytes, though their character count may (the encoder
+    must cut BYTES; where the cut falls inside a character the result no longer round-trips, which is outside dom4/dom5,
+    but size() and the bytes written must still agree and equal the model's)"""
+    if over and rng.random() < 0.4:
+        return rng.choice(LONG_NAMES)
     while True:
         s = rng.choice(NAMES) if rng.random() < 0.7 else "".join(rng.choice("abcXYZ 019-é√") for _ in range(rng.randrange(0, 9)))
         if len(s.encode()) <= maxbytes and "\0" not in s:
@@ -227,14 +235,14 @@ def gen_message(rng: random.Random, kind: int | None = None, in_domain: bool = T
             fs = {f: rng.random() < 0.6 for f in (F.AUTO, F.QUIET, F.LOW, F.MEDIUM, F.HIGH, F.POWERFUL, F.TURBO)}
             fs[F.UNCHANGED] = True
             groups = None if rng.random() < 0.4 else set(rng.sample(range(16), rng.randrange(0, 17)))
-            abs_.append(abil.AcAbility(small(4), rand_name(rng, 16), ms, fs, small(33), small(33), groups, small(16), small(17)))
+            abs_.append(abil.AcAbility(small(4), rand_name(rng, 16, over=not in_domain), ms, fs, small(33), small(33), groups, small(16), small(17)))
         return ext.ExtendedMessage(abil.AcAbilityMessage(abs_))
     if k == 12:
         return ext.ExtendedMessage(abil.AcAbilityRequest(rng.choice(["ALL", small(4)])))
     if k == 13:
         n = rng.choice([1, 2, 5, 16])
         keys = rng.sample(range(16), n) if in_domain else [small(16) for _ in range(n)]
-        return ext.ExtendedMessage(names.GroupNamesMessage({g: rand_name(rng, 8) for g in keys}))
+        return ext.ExtendedMessage(names.GroupNamesMessage({g: rand_name(rng, 8, over=not in_domain) for g in keys}))
     if k == 14:
         return ext.ExtendedMessage(names.GroupNamesRequest(rng.choice(["ALL", small(16)])))
     if k == 15:
